@@ -104,6 +104,11 @@ def _check_type(ctx, what, ln, t, tys, Array, List, StaticArray):
         if t["t"] == "Ext" and e.get("bound") != expb:
             ctx.violation(dict(sig, what="serialized bound"), ln, expb, e.get("bound"), clause="Desugar(x).bound = Bound(x)")
             return
+        if t["t"] == "Either":        # Either(left: Iterable, right: Iterable): one-shot iterators denote the same type
+            alt = tys.Either(iter(W.build_row(t["left"])), iter(W.build_row(t["right"])))
+            if alt.type_bound().value != expb or W.canon(W.enc_type(alt)) != W.canon(enc_exp):
+                ctx.violation(dict(sig, what="Either built from one-shot iterators"), ln, [expb, enc_exp], [alt.type_bound().value, W.enc_type(alt)], clause="HugrWire!Bound (Iterable arguments)")
+                return
         db = W.dec_type(enc_exp).type_bound().value
         if db != expb:
             ctx.violation(dict(sig, what="bound after decode"), ln, expb, db, clause="Bound(Dec(Enc(x))) = Bound(x)")
